@@ -53,7 +53,7 @@ checks.append(check("C10", "rc10", "6/C10",
     "property-based testing: proptest-generated operation histories (incl. OS-thread drop schedules), reference-count model oracle, shrinking, JSON replay",
     "exploration only; thread interleavings are sampled by the OS scheduler, not enumerated (the checked invariants are schedule independent)"))
 checks.append(check("C16", "wr16", "6/C16",
-    "world-reactor oracle: histories of add / remove (partial, full, spanning entities) / run / trigger / despawn over two WorldReactors with dynamic bundles, one with starting triggers and three EntityWorldReactors; per window between settles the multiset of runs (reactor, readings, local entity + tag) equals the key-table model; add / remove / run return values (false only for add on a despawned entity); EntityLocal::get / entity agree with get_mut; per-entity run counters in the local data and per-reactor Locals are continuous; local data exists exactly while the entity lives and keeps a trigger; number of system commands constant; key bundles may contain event keys of the resource's type (a second registry keyed by the same TypeId); EntityReactor::add on an entity despawned earlier in the same batch; in half of the histories the type-wide removal reactor that started removal tracking has been revoked again (entity-scoped removal triggers must go on working)",
+    "world-reactor oracle: histories of add / remove (partial, full, spanning entities) / run / trigger / despawn over two WorldReactors with dynamic bundles, one with starting triggers and four EntityWorldReactors (one of them an exclusive system that fetches EntityLocal and the readers twice per run); per window between settles the multiset of runs (reactor, readings, local entity + tag) equals the key-table model; add / remove / run return values (false only for add on a despawned entity); EntityLocal::get / entity agree with get_mut; per-entity run counters in the local data and per-reactor Locals are continuous; local data exists exactly while the entity lives and keeps a trigger; number of system commands constant; key bundles may contain event keys of the resource's type (a second registry keyed by the same TypeId); EntityReactor::add on an entity despawned earlier in the same batch; in half of the histories the type-wide removal reactor that started removal tracking has been revoked again (entity-scoped removal triggers must go on working)",
     "property-based testing: proptest-generated operation histories, reference model oracle, shrinking, JSON replay",
     "exploration only; uses hook helpers verif_has_entity_world_local / verif_system_commands as read-only observers"))
 checks.sort(key=lambda c: c["property_id"])
